@@ -298,7 +298,11 @@ class DictsReprMixin(abc.ABC):
 
     def to_arrow(self) -> pa.Table:
         """Convert the object to a PyArrow Table."""
-        return pa.Table.from_pylist(self.to_dicts())
+        dicts = self.to_dicts()
+        # The schema is inferred from the first row only: give every row all the keys.
+        keys = tuple({key: None for data in dicts for key in data})
+        return pa.Table.from_pylist(
+            [{key: data.get(key) for key in keys} for data in dicts])
 
     def to_pandas(self) -> PandasDataFrame:
         """Convert the object to a Pandas DataFrame."""
